@@ -371,6 +371,12 @@ static void run_cut(int fidx, size_t cut) {
                 if (!is_error(ec)) viol(f, cut, "gds_info", "no-error", fmt("error code %d", (int)ec), fidx);
                 info.clear();
                 fdcheck("gds_info", rep);
+                // the same summary object reused across calls (and across cases of this worker), cleared in between
+                static LibraryInfo reused = {};
+                ErrorCode ec2 = gds_info(path, reused);
+                if (!is_error(ec2)) viol(f, cut, "gds_info", "no-error", fmt("error code %d (reused summary object)", (int)ec2), fidx);
+                reused.clear();
+                fdcheck("gds_info", rep);
             }
             {
                 double u = -1, p = -1;
